@@ -387,8 +387,14 @@ func (rp *ResourcePool) scaleOutResources() (resourceWrapper, bool) {
 	rp.lock.Lock()
 	defer rp.lock.Unlock()
 	// while a scale-in is waiting for a resource to come back, the capacity is already
-	// lowered but the resource is still out: scaling out now could exceed maxCapacity
-	if len(rp.scaleInTodo) == 0 && rp.capacity.Get() < rp.maxCapacity.Get() {
+	// lowered but the resource is still out: scaling out now could exceed maxCapacity.
+	// The same holds for a resize asked for through SetCapacity / ScaleCapacity, which keeps
+	// scaleLock for as long as it waits.
+	if len(rp.scaleInTodo) != 0 || !rp.scaleLock.TryLock() {
+		return resourceWrapper{}, false
+	}
+	defer rp.scaleLock.Unlock()
+	if rp.capacity.Get() < rp.maxCapacity.Get() {
 		wrapper, ok := rp.AddCapacityResource()
 		rp.scaleOutTime = time.Now().Unix()
 		return wrapper, ok
